@@ -140,6 +140,12 @@ func cmdC15(seed uint64, tier, outdir string) {
 		}
 		direct := directClassifier(files)
 		verdict := ""
+		// the other constructor must read the supplied archive as well
+		if l2, err2 := lc.NewWithForbiddenLicenses(lc.DefaultConfidenceThreshold, lc.ArchiveBytes(ab)); err2 != nil {
+			verdict = fmt.Sprintf("NewWithForbiddenLicenses does not load the supplied archive: %v", err2)
+		} else if a, b := strings.Join(l2.VerifInner().VerifKeys(), ","), strings.Join(l.VerifInner().VerifKeys(), ","); a != b {
+			verdict = fmt.Sprintf("NewWithForbiddenLicenses(archive) holds %q, New(archive) holds %q", trunc1(a), trunc1(b))
+		}
 		gotKeys, wantKeys := strings.Join(l.VerifInner().VerifKeys(), ","), strings.Join(direct.VerifKeys(), ",")
 		if gotKeys != wantKeys {
 			verdict = fmt.Sprintf("licenses in the loaded classifier %q differ from the archived file names %q", gotKeys, wantKeys)
@@ -356,6 +362,59 @@ func cmdC16(seed uint64, tier, outdir string) {
 				}
 			}
 			lc.Normalizers[slot] = saved
+		}
+	}
+	// confidence mathematically EQUAL to the threshold, for every whole percentage p: a synthetic license of
+	// 1000 - w/2 normalised characters in which a run of w/2 characters is replaced by one foreign word of w = 10*(100-p)
+	// characters: the text is 1000 characters long, the distance is w, the confidence 1 - w/1000 = p/100
+	{
+		words := []string{"alpha", "beta", "gamma", "delta", "license", "granted", "software", "terms"}
+		for pct := 50; pct <= 99; pct++ {
+			thr := float64(pct) / 100
+			w := 10 * (100 - pct)
+			rr := w / 2
+			l0 := 1000 - rr
+			var sb strings.Builder
+			for sb.Len() < l0 {
+				sb.WriteString(words[r.intn(8)])
+				sb.WriteByte(' ')
+			}
+			known := sb.String()[:l0]
+			if known[l0-1] == ' ' {
+				known = known[:l0-1] + "x"
+			}
+			if lc.VerifNormalize(known) != known {
+				continue
+			}
+			synth := licFile{"Exact.txt", []byte(known)}
+			ab2, err := archiveOf([]licFile{synth, all[perm[0]]}, []string{synth.name, all[perm[0]].name})
+			if err != nil {
+				continue
+			}
+			l2, err := lc.New(thr, lc.ArchiveBytes(ab2))
+			if err != nil {
+				continue
+			}
+			from := (l0 - rr) / 2
+			for from < l0 && known[from-1] != ' ' {
+				from++
+			}
+			unknown := known[:from] + strings.Repeat("q", w) + known[from+rr:]
+			cw.printf("confidence-equals-threshold %d%% (text %d characters, distance %d)\n", pct, len(unknown), w)
+			verdict := ""
+			if os.Getenv("VERIF_DEBUG") != "" {
+				fmt.Fprintf(os.Stderr, "pct=%d len=%d w=%d -> %v\n", pct, len(unknown), w, fmtMatches(l2.VerifInner().MultipleMatch(unknown)))
+			}
+			for _, m := range l2.MultipleMatch(unknown, true) {
+				if m.Confidence < thr {
+					verdict = fmt.Sprintf("MultipleMatch at threshold %v returned %s with confidence %v", thr, m.Name, m.Confidence)
+				}
+			}
+			if verdict == "" {
+				vw.printf("OK 1\n")
+			} else {
+				vw.printf("VIOL - %s\n", verdict)
+			}
 		}
 	}
 	// MultipleMatch never returns a match below the threshold
